@@ -2,6 +2,7 @@ package c20
 
 import (
 	"fmt"
+	"os"
 	"sort"
 	"testing"
 
@@ -73,6 +74,36 @@ var loopCtl = map[string]string{
         while j < 3 && { if m == 2 { continue; } true } { j += 1; }
         println("m", m, j);
     }
+}
+`,
+	// ... and so does one inside the iterable of a for loop
+	"exits-in-for-iterables": `fn main() {
+    let l = [1, 2];
+    let n = 0;
+    loop {
+        n += 1;
+        for x in ({ if n > 2 { break; } l }) { println(n, x); }
+        println("round", n);
+    }
+    println("end", n);
+    for i in 0..4 {
+        for x in ({ if i == 1 { continue; } l }) { println("i", i, x); }
+        println("after", i);
+    }
+}
+`,
+	// a trigger registration is a statement like any other
+	"trigger-statements": `import trigger minute from triggers;
+event fn cb(elapsed: int) { println("cb", elapsed); }
+fn main() {
+    let n = 0;
+    while n < 3 {
+        n += 1;
+        if n == 2 { trigger cb at minute(n); }
+        println("n", n);
+    }
+    trigger cb at minute(7);
+    println("end");
 }
 `,
 	"guarded": `fn find(limit: int) -> int {
@@ -233,6 +264,9 @@ func TestTableLoopControl(t *testing.T) {
 	nSeeds := pk.Scale(40, 400)
 	k := 0
 	for _, name := range names {
+		if only := os.Getenv("VERIF_LOOPCTL"); only != "" && only != name {
+			continue // development aid: one program of the table
+		}
 		if resp := px.Pool().Exec(&sb.Request{Op: "analyze", Modules: map[string]string{"main": loopCtl[name]}, Entry: "main"}); resp == nil || !resp.Accepted {
 			col.Report(Case{ProgCase: px.ProgCase{Modules: map[string]string{"main": loopCtl[name]}, Entry: "main"}}, pk.Failf("variants", "table-rejected ["+name+"]", "a hand-written program of the table is not accepted: %s\n%s", diagText(resp), loopCtl[name]))
 			continue
